@@ -31,6 +31,7 @@ LEVEL = "exploration"
 TECHNIQUE = ("deterministic simulation: seeded PROXY v1/v2 header grammar + structural mutations, every header split point "
              "reachable, on a real HAProxyProtocolWrapper vs an independent header model")
 QUICK_RUNS = 160000
+TWIN_P = 0.08   # this share of the runs drives two independent instances of the scenario one after the other (detsim.runner._run_scenario)
 BATCH = 200
 # Known finding 1 (version decided from the first delivery alone): this fraction of
 # runs keeps the first delivery >= 16 (v2) / 8 (v1) bytes so that the rest of the
